@@ -1,6 +1,6 @@
 //! AST -> real chumsky parser.  Every node is built with the real combinator it names; closures
 //! come from the vocabulary shared with the specification (spec/Ast.tla).
-use crate::ast::{It, Strat, B, G};
+use crate::ast::{Ins, It, Strat, B, G};
 use crate::errs::{ErrTy, SpanObs, Tok};
 use crate::insp::{loc_to_idx, log_ev, Ev, St, BASE};
 use crate::val::{map_fn, pred, Val};
@@ -56,6 +56,9 @@ pub trait Kind<'a>: Input<'a, Token: Tok, Span: SpanObs> + Sized + 'a {
         Err(format!("input kind {} cannot hand out tokens by value", Self::NAME))
     }
     fn vnot<E: ErrTy<'a, Self>>(_p: P<'a, Self, E>) -> Result<P<'a, Self, E>, String> {
+        Err(format!("input kind {} cannot hand out tokens by value", Self::NAME))
+    }
+    fn vprog<E: ErrTy<'a, Self>>(_ins: &[Ins], _subs: Vec<P<'a, Self, E>>) -> Result<P<'a, Self, E>, String> {
         Err(format!("input kind {} cannot hand out tokens by value", Self::NAME))
     }
     fn vlazy<E: ErrTy<'a, Self>>(_p: P<'a, Self, E>) -> Result<P<'a, Self, E>, String> {
@@ -128,6 +131,44 @@ pub fn value_leaf<'a, I: Kind<'a> + ValueInput<'a>, E: ErrTy<'a, I>>(g: &G) -> R
         G::Ext(k, ok) => chumsky::extension::v1::Ext(KExt { k: *k, ok: *ok }).bxd(),
         other => return Err(format!("not a value leaf: {other:?}")),
     })
+}
+/// custom(|inp| ..) whose closure interprets a straight-line program over InputRef's public methods
+pub fn value_prog<'a, I: Kind<'a> + ValueInput<'a>, E: ErrTy<'a, I>>(ins: &[Ins], subs: Vec<P<'a, I, E>>) -> P<'a, I, E> {
+    let ins: Vec<Ins> = ins.to_vec();
+    custom(move |inp: &mut InputRef<'a, '_, I, X<E>>| {
+        let start = inp.cursor();
+        let mut saved = None;
+        for i in &ins {
+            match i {
+                Ins::Next => {
+                    if inp.next().is_none() {
+                        return Err(E::user(inp.span_since(&start), "cu"));
+                    }
+                }
+                Ins::Skip => inp.skip(),
+                Ins::Peek(c) => {
+                    if inp.peek().map(|t| t.ch()) != Some(*c) {
+                        return Err(E::user(inp.span_since(&start), "cu"));
+                    }
+                }
+                Ins::Save => saved = Some(inp.save()),
+                Ins::Rewind => {
+                    if let Some(c) = saved.clone() {
+                        inp.rewind(c);
+                    }
+                }
+                Ins::Fail => return Err(E::user(inp.span_since(&start), "cu")),
+                Ins::Run(k) => {
+                    inp.parse(&subs[*k - 1])?;
+                }
+                Ins::Chk(k) => {
+                    inp.check(&subs[*k - 1])?;
+                }
+            }
+        }
+        Ok(span_val(&inp.span_since(&start)))
+    })
+    .bxd()
 }
 /// an extension parser that runs a sub-parser through InputRef::parse resp. InputRef::check
 #[derive(Clone)]
@@ -203,6 +244,9 @@ macro_rules! value_impl {
         }
         fn vnot<E: ErrTy<$lt, Self>>(p: P<$lt, Self, E>) -> Result<P<$lt, Self, E>, String> {
             Ok(p.not().map(|()| Val::U).bxd())
+        }
+        fn vprog<E: ErrTy<$lt, Self>>(ins: &[crate::ast::Ins], subs: Vec<P<$lt, Self, E>>) -> Result<P<$lt, Self, E>, String> {
+            Ok(crate::build::value_prog::<Self, E>(ins, subs))
         }
         fn vlazy<E: ErrTy<$lt, Self>>(p: P<$lt, Self, E>) -> Result<P<$lt, Self, E>, String> {
             Ok(p.lazy().bxd())
@@ -661,6 +705,7 @@ where
                 .bxd()
         }
         G::Any | G::Sel(_) | G::Cust(..) | G::Ext(..) => I::vleaf::<E>(g)?,
+        G::Prog(ins, subs) => I::vprog::<E>(ins, subs.iter().map(|p| build(p, env)).collect::<Result<Vec<_>, _>>()?)?,
         G::OneOf(ts) => I::one_of_set::<E>(ts, false)?,
         G::NoneOf(ts) => I::one_of_set::<E>(ts, true)?,
         G::AnyR => I::any_ref::<E>()?,
